@@ -81,7 +81,7 @@ StepBad(e) ==
        \cup (IF ~(SameLoop(o, [s2 EXCEPT !.finished = TRUE]) \/ SameLoop(o, [s EXCEPT !.finished = TRUE, !.rip = o.rip]))
              THEN {"C12:stop-left-inconsistent-loop-state"} ELSE {})
   ELSE IF ~Completes(a) \/ nohook THEN
-       (IF e.k # "err" THEN {"C11:faulting-instruction-step-ok"} ELSE {})
+       (IF e.k # "err" THEN {"C11:faulting-instruction-step-ok"} \cup (IF nohook THEN {"C12:unhooked-syscall-or-interrupt-completed"} ELSE {}) ELSE {})
        \cup (IF o.count # s.count \/ o.finished # s.finished THEN {"C11:failed-step-changed-count-or-finished"} ELSE {})
        \cup (IF LA # <<>> THEN {"C12:after-hook-ran-after-failed-instruction"} ELSE {})
   ELSE IF ~PhaseOKF(LA, HA, s2.finished) THEN {"C12:after-chain"}
